@@ -678,10 +678,13 @@ fn query(pool: &[Option<Obj>], toks: &[&str]) -> String {
                 macro_rules! en {
                     ($f:expr, $is_b:expr, $nodes:expr) => {{
                         let f = $f;
-                        let dom: Vec<Vec<bool>> = f.domain().collect();
-                        let img: Vec<bool> = f.image().collect();
-                        let rel: Vec<(Vec<bool>, bool)> = f.relation().collect();
-                        let mut sup: Vec<Vec<bool>> = f.support().collect();
+                        // an enumeration that does not end must show as a wrong answer, not exhaust the memory:
+                        // at most 2^n + 3 items are taken (more than any correct enumeration has)
+                        let cap = (1usize << f.degree().min(24)) + 3;
+                        let dom: Vec<Vec<bool>> = f.domain().take(cap).collect();
+                        let img: Vec<bool> = f.image().take(cap).collect();
+                        let rel: Vec<(Vec<bool>, bool)> = f.relation().take(cap).collect();
+                        let mut sup: Vec<Vec<bool>> = f.support().take(cap).collect();
                         if $is_b {
                             sup.sort();
                         }
